@@ -12,7 +12,7 @@ Local Open Scope N_scope.
 (* C09_sound: whatever Parser.Parse accepts, every object it announces
    - is named by the digest of "<type> <length>\0" ++ its own content (the length is
      the real one: equal to the size announced for it),
-   - lies on a delta chain of at most maxDeltaChainDepth links,
+   - lies on a delta chain of exactly [r_depth o] links ([Resolves] counts them), at most maxDeltaChainDepth,
    - is what the declared delta structure says ([Resolves]: whole entries stand for their
      inflated bytes, an OFS/REF delta for apply_delta of what its base stands for, external
      bases come from the store). *)
@@ -22,7 +22,7 @@ Theorem C09_sound : forall hs Hsz inflate crc32 ext pack objs sum,
   forall o, In o objs ->
     r_id o = obj_id hs Hsz (r_type o) (blen (r_content o)) (r_content o) /\
     r_size o = blen (r_content o) /\ r_depth o <= MAX_DEPTH /\
-    Resolves hs Hsz es ext (r_off o) (r_type o) (r_content o).
+    Resolves hs Hsz es ext (r_off o) (r_type o) (r_content o) (r_depth o).
 Proof. exact parse_sound. Qed.
 Print Assumptions C09_sound.
 
